@@ -110,6 +110,10 @@ def run_abort(case, chooser):
         chooser.active = False
         rig.ev(0, "@connect")
         rig.ev(0, "USER anonymous")
+        if case.get("prefail"):
+            # earlier in the session a command failed in the backend (451 from its handler): that is over and done with
+            for e in ("MKD pf", "MKD pf/x", "RMD pf"):
+                rig.ev(0, e)
         script = script_for(verb, size, data_conn, case.get("noread", False), case.get("rest", 0))
         if case.get("close_fails"):
             # the backend fails when the aborted transfer closes its file (disk full at flush, stale handle)
@@ -386,6 +390,17 @@ def build_items(tier):
                 case = {"verb": verb, "size": size, "k": k, "backend": "async", "followup": "again" if k % 2 else "pwd",
                         "data_conn": True, "pipe": pipe}
                 items.append((case, 1 if tier == "quick" else 2, kinds))
+    # a command that ended in 451 earlier in the session
+    for verb in ("RETR", "STOR", "LIST"):
+        for data_conn in (True, False):
+            size = 3 * B
+            probe = {"verb": verb, "size": size, "k": 10 ** 9, "backend": "memory", "followup": "pwd", "data_conn": data_conn,
+                     "probe": True, "prefail": True}
+            n = run_abort(probe, Chooser())["events"]
+            for k in range(0, n + 2):
+                case = {"verb": verb, "size": size, "k": k, "backend": "memory", "followup": "again" if k % 2 else "pwd",
+                        "data_conn": data_conn, "prefail": True}
+                items.append((case, 0 if tier == "quick" else 1, kinds))
     # closing the file takes long (longer than path_timeout), the next command right behind the ABOR
     for verb in ("RETR", "STOR", "APPE"):
         for pipe in ("SYST", "ABOR", "PWD", None):
